@@ -634,6 +634,14 @@ fn gen_op(rng: &mut Rng, cur: &MState) -> Op {
                 }
             }
         }
+        // a connector configured consistently with the agreement leaves yielded attributes out
+        let yl: Vec<u64> = cur.agrs.iter().find(|(u, _)| *u == me).map(|(_, a)| a.yld.clone()).unwrap_or_default();
+        if !yl.is_empty() && rng.chance(80, 100) {
+            let keep_import = rng.chance(60, 100);
+            for se in ents.iter_mut() {
+                se.attrs.retain(|(a, _)| if *a == 6 { keep_import || !(yl.contains(&5) || yl.contains(&6)) } else { !yl.contains(a) });
+            }
+        }
         let sub = |rng: &mut Rng| {
             let mut l = vec![];
             for ix in POOL {
